@@ -84,8 +84,8 @@ def gen_case(rng, tier, huge_ok):
             y = rng.random()
             if y < 0.06:
                 n = rng.choice([0, -1, -2, -7])
-            elif y < 0.08 and huge_ok and dt >= 2:
-                n = rng.choice([I64MAX, I64MIN, 1 << 62, -(1 << 62) - 1])
+            elif y < 0.08 and huge_ok:
+                n = rng.choice([I64MIN, -(1 << 62) - 1, -(1 << 61), I64MIN + 1])   # (huge positive sizes: fixed batch only)
             kind = rng.random()
             if kind < 0.25:
                 toks.append("m:%d:%d:%d" % (d, n, dt))
@@ -379,16 +379,30 @@ def run(run, tier, seed, replay_case=None):
     corpus = C.load_corpus(PROP)
     n = 2500 if tier == "quick" else 60000
     nh = 40 if tier == "quick" else 600
-    cases = list(corpus) + fixed_cases() + huge_cases()
-    cases += [gen_case(rng, tier, False) for _ in range(n)]
-    cases += [gen_case(rng, tier, True) for _ in range(nh)]
-    if replay_case is not None:
-        cases = [replay_case]
+    stage1 = list(corpus) + fixed_cases() + huge_cases()
     env = C.lib_env("asan")
     env["OMP_NUM_THREADS"] = "2"
+    # leaks are C01/C05's subject (cloning a use_host_pointer memory leaks the clone's buffer); a leak report at
+    # process exit would be attributed to whatever history came last
+    env["ASAN_OPTIONS"] = env["ASAN_OPTIONS"].replace("detect_leaks=1", "detect_leaks=0")
     D = Diff(run, PROP, [impl], model, env, signatures=SIGNATURES, keep_first=1,
              model_desc="coq/C02/Model.v (cfg fixed) vs src/core/memory.cpp, src/core/device.cpp, serial/{memory,buffer,device}.cpp")
-    I, R, S = D.eval(cases)
+    if replay_case is not None:
+        cases = [replay_case]
+        I, R, S = D.eval(cases)
+    else:
+        # stage 1: corpus + defect witnesses + guard boundaries.  When these already fail (outside the known
+        # finding) the seeded batch is not run: on a tree without fixes/C02-1..6 a large part of it would
+        # crash the driver, one process restart per crash.
+        cases = stage1
+        I, R, S = D.eval(cases)
+        bad = [i for i in range(len(cases)) if D.fails_spec(I[i], S[i]) and not sig_huge_arg(cases[i])]
+        if not bad:
+            more = [gen_case(rng, tier, False) for _ in range(n)] + [gen_case(rng, tier, True) for _ in range(nh)]
+            I2, R2, S2 = D.eval(more)
+            cases, I, R, S = cases + more, I + I2, R + R2, S + S2
+        else:
+            run.coverage["stage"] = "stopped after the fixed batch: %d of its %d cases fail" % (len(bad), len(cases))
     D.judge(cases, I, R, S, proof_failures=pr["failures"])
 
     distinct = set(c for c in cases if nontrivial(c))
